@@ -126,7 +126,7 @@ def audit_axioms(prop, theorems):
 
 
 # further statement files that belong to a property (extensions proved later: pointer/radix-tree refinements, progress)
-EXTRA_PROPS = {"C05": ["C05rat"], "C07": ["C07progress"], "C16": ["C16ptr"], "C18": ["C18tls"], "C06": ["C06list"], "C08": ["C08loop"]}
+EXTRA_PROPS = {"C05": ["C05rat"], "C07": ["C07progress", "C07tmo"], "C16": ["C16ptr"], "C18": ["C18tls"], "C06": ["C06list"], "C08": ["C08loop"]}
 
 
 def proof_phase(prop):
@@ -257,11 +257,11 @@ MT_WRAPS = ["clock_gettime", "syscall", "timerfd_create", "timerfd_settime", "ep
 MT_SOURCES = ["mt_h.c", "mt_proc.c"]
 
 
-def build_mt(out=None, extra_sources=(), extra_wraps=()):
+def build_mt(out=None, extra_sources=(), extra_wraps=(), extra=()):
     """the T-sched harness: core + process/signal extension (+ property-specific extensions)"""
     out = out or os.path.join(BUILD, "mt_h")
     srcs = [os.path.join(VERIF, "harness", s) for s in MT_SOURCES] + list(extra_sources)
-    return build_wrapped(out, srcs, MT_WRAPS + list(extra_wraps))
+    return build_wrapped(out, srcs, MT_WRAPS + list(extra_wraps), extra=extra)
 
 
 def build_wrapped(out, harness_src, wraps, flags=None, tag="asan", extra=()):
